@@ -377,7 +377,7 @@ PROPS = {
                 "followed by the initial text; every get-messages reply is the complete board at some instant of its round (a suffix of the final "
                 "board starting at a post boundary, not older than posts acknowledged before); every post announced (102) exactly once to every "
                 "connected client; every 109 carries exactly the agreement; non-trivial = two reads overlap on a board > 512 bytes, or a read "
-                "overlaps a post, or simultaneous logins against an agreement > 512 bytes; distinct = hash(sizes, rounds, logins); in a quarter of the bubble cases a stale MessageBoard.txt.tmp (what a server that died between writing and renaming leaves behind) is present from the start; in a third of the bubble cases the operator edits the agreement file (LF line ends) and reloads it before the simultaneous logins, which must then be shown the new text with converted line ends; the post format is the default, or the operator configured a date layout (NewsDateFormat), a template (NewsDelimiter), or both: the reference renders the configured format",
+                "overlaps a post, or simultaneous logins against an agreement > 512 bytes; distinct = hash(sizes, rounds, logins); in a quarter of the bubble cases a stale MessageBoard.txt.tmp (what a server that died between writing and renaming leaves behind) is present from the start; in a third of the bubble cases the operator edits the agreement file (LF line ends) and reloads it before the simultaneous logins, which must then be shown the new text with converted line ends; the post format is the default, or the operator configured a date layout (NewsDateFormat), a template (NewsDelimiter), or both: the reference renders the configured format; a post sent while the board file cannot be rewritten (unacknowledged: may or may not appear later; everything after it is served as usual); reload requests issued from four goroutines while a round of posts is in flight; the date stamp of every post is the time of the post in the configured layout, cases play at any minute of the day",
         "assumptions": ["goroutine schedules are sampled (bubble: Go scheduler inside the bubble; live: real scheduler)", "board text uses CR line ends (the store converts LF on load)"],
         "quick": {"runs": [{"test": "^TestC19$", "shards": 12, "checks": 60, "timeout": 900},
                            {"test": "^TestC19Live$", "shards": 2, "timeout": 600, "weight": 2}]},
